@@ -111,7 +111,7 @@ class SshProtocolMessage(ParsableBase):
         parser.parse_string_until_separator('software_version_and_comment', '\n')
         software_version_and_comment = parser['software_version_and_comment'].split(' ')
 
-        if software_version_and_comment[-1][-1] == '\r':
+        if software_version_and_comment[-1][-1:] == '\r':
             software_version_and_comment[-1] = software_version_and_comment[-1][:-1]
 
         software_version_parser = ParserText(six.ensure_binary(software_version_and_comment[0], 'ascii'))
